@@ -9,6 +9,7 @@ def rules(ctx, tier):
     return [
         lambda: exc.run(ctx, 'Sid(path,config)'),
         lambda: pathops.rule_reformat(ctx),
+        lambda: pathops.rule_pathfirst(ctx),
         lambda: config.rule_literal(ctx),
         lambda: config.rule_mapinj(ctx),
         lambda: forward.rule_fwd_config(ctx),
